@@ -3,7 +3,10 @@
 
 package argmapper
 
-import "reflect"
+import (
+	"fmt"
+	"reflect"
+)
 
 // Convert converts the input arguments to the given target type. Convert will
 // use any of the available arguments and converters to reach the given target
@@ -22,6 +25,13 @@ func Convert(target reflect.Type, opts ...Arg) (interface{}, error) {
 // complicated interfaces and callers can call Convert multiple times. But
 // we use this internally for Redefine and FilterOutput.
 func convertMulti(target []reflect.Type, opts ...Arg) ([]reflect.Value, error) {
+	// There is no function type over a nil type.
+	for _, t := range target {
+		if t == nil {
+			return nil, fmt.Errorf("target type must not be nil")
+		}
+	}
+
 	// The way we get convert to work is that we make a dynamic function
 	// that takes the target type as input, and then call Call on it. This
 	// lets our DI system automatically determine our conversion.
